@@ -643,7 +643,8 @@ def main():
         "assumptions": spec.get("assumptions", []),
         "wall_s": round(time.time() - t0, 1), "violations": len(reported) + (1 if exit_code and not reported else 0),
     }
-    if not args.replay:  # a replay re-executes one stored case; it is not a coverage run
+    if not args.replay and not os.environ.get("VERIF_NO_EVIDENCE"):  # a replay re-executes one stored case; it is not a coverage run
+        # (VERIF_NO_EVIDENCE: development runs against deliberately broken trees must not overwrite the committed evidence)
         os.makedirs(os.path.join(VERIF, "evidence"), exist_ok=True)
         with open(os.path.join(VERIF, "evidence", prop + ".json"), "w") as f:
             json.dump(ev, f, indent=1)
